@@ -79,7 +79,8 @@ PROPS["C06"] = dict(level="proof", bounded=[dict(name="c06_runtime", script="har
 PVM = V1 + ["contracts.periodic"]
 PROPS["C07"] = dict(level="proof", bounded=[dict(name="c07_runtime", script="harness_solvers.py", args=["--prop", "c07"], wall_s=300)],
     units=[U(PVM, f"{PV}._calculate_period_span_without_discount", timeout_ms=30000), U(PVM, f"{PV}._calculate_period_span_with_discount", timeout_ms=30000),
-           U(PVM, f"{PV}._iteration_step", timeout_ms=30000), U(PVM, f"{PV}.solve", pop=[f"{PV}._iteration_step"], timeout_ms=20000)],
+           U(PVM, f"{PV}._iteration_step", timeout_ms=30000), U(PVM, f"{PV}.solve", pop=[f"{PV}._iteration_step"], timeout_ms=20000),
+           U(PVM, f"{PV}._get_periodic_span"), U(PVM, f"{PV}._initialize_solver_state_elements"), U(PVM, f"{PV}._setup_convergence_testing"), U(PVM, f"{PV}._clear_value_history")],
     lean=["periodic_gain_bracket", "periodic_gain_within"], assumptions=SOLVER_ASSUME)
 PROPS["C17"] = dict(level="proof", bounded=[dict(name="c17_runtime", script="harness_solvers.py", args=["--prop", "c17"], wall_s=300)], units=[U(["contracts.matrices"], PB, timeout_ms=20000)], lean=["matrix_backup_eq"], assumptions=SOLVER_ASSUME)
 PROPS["C15"] = dict(level="proof", bounded=[dict(name="c15_runtime", script="harness_problems.py", args=["--prop", "c15"], wall_s=300)], units=[U(["contracts.problems"], f"{t}.transition", timeout_ms=30000, wall_s=1200) for t in (DM, HX, MJ, FO)], assumptions=[ARITH, ENGINE])
@@ -117,7 +118,10 @@ PROPS["C08"] = dict(
         + [U(RVM, f"{SOLV}._initialize_values"), U(RVM, f"{RV}._iteration_step"), U(RVM, f"{RV}.solve", timeout_ms=20000)]
         + [U(PVM, f"{PV}._iteration_step", timeout_ms=30000), U(PVM, f"{PV}.solve", pop=[f"{PV}._iteration_step"], timeout_ms=20000)]
         + [U(SAM + ["contracts.vi_solve"], f"{SA}._iteration_step", timeout_ms=20000), U(SAM + ["contracts.vi_solve"], f"{SA}.solve", timeout_ms=20000)]
-        + [U(PIM + ["contracts.rvi"], f"{PI}.solve", timeout_ms=20000, ignore=["*eval_converged_when_policy_declared_stable"])],
+        + [U(PIM + ["contracts.rvi"], f"{PI}.solve", timeout_ms=20000, ignore=["*eval_converged_when_policy_declared_stable"])]
+        + [U(RVM, f"{RV}._setup_convergence_testing"), U(RVM, f"{SOLV}._initialize_solver_state_elements"), U(RVM, f"{RV}._initialize_solver_state_elements"),
+           U(PVM, f"{PV}._setup_convergence_testing"), U(PVM, f"{PV}._initialize_solver_state_elements"), U(PVM, f"{PV}._get_periodic_span"), U(PVM, f"{PV}._clear_value_history"),
+           U(PIM, f"{PI}._initialize_solver_state_elements")],
     assumptions=SOLVER_ASSUME + ["PeriodicValueIteration.solve requires value_history is not None (a converged solve with the default clear_value_history_on_convergence=True clears it; a further solve() then raises TypeError) - stated precondition, see DESIGN C08"],
 )
 
